@@ -216,6 +216,10 @@ func resolveCounterFields(P *Prog) (buf, capF, p *types.Var) {
 			buf = f
 			continue
 		}
+		if _, isMap := f.Type().Underlying().(*types.Map); isMap && buf == nil {
+			buf = f // the buffer kept as a plain map
+			continue
+		}
 		if bt, ok := f.Type().Underlying().(*types.Basic); ok {
 			switch bt.Kind() {
 			case types.Int:
